@@ -18,7 +18,7 @@ MODULES = {
     "C10": "harness.c10_generators", "C11": "harness.c11_search", "C12": "harness.c12_evaluate",
     "C13": "harness.c13_solvers", "C14": "harness.c14_regret", "C15": "harness.c15_normalize",
     "C16": "harness.c16_linear", "C17": "harness.c17_object", "C18": "harness.c18_coalitions",
-    "C20": "harness.c20_crash",
+    "C19": "harness.c19_saved", "C20": "harness.c20_crash",
 }
 
 
@@ -307,8 +307,12 @@ def finish(mod, modname, pid, tier, seed, repo, t0, results, skipped, heavy, n_j
     ev = {"property_id": pid, "tier": tier, "seed": seed, "level": "model_checking", "coverage": cov,
           "assumptions": getattr(mod, "ASSUMPTIONS", []), "wall_s": round(wall, 2),
           "violations": len(reported)}
-    os.makedirs(os.path.join(VERIF, "evidence"), exist_ok=True)
-    with open(os.path.join(VERIF, "evidence", f"{pid}.json"), "w") as f:
+    # evidence describes a run against /repo itself; runs against a scratch copy (self-test mutants, seeded changes:
+    # VERIF_REPO=<copy>) must never overwrite it and write to a side directory instead
+    evdir = os.path.join(VERIF, "evidence") if os.path.realpath(repo) == "/repo" else \
+        os.environ.get("VERIF_EVIDENCE_DIR", "/tmp/verif-evidence-scratch")
+    os.makedirs(evdir, exist_ok=True)
+    with open(os.path.join(evdir, f"{pid}.json"), "w") as f:
         json.dump(ev, f, indent=1, default=str)
     log(f"[{pid}/{tier}] obligations={tot['obligations']} discharged={tot['discharged']} unknown={tot['unknown']} "
         f"paths={tot['paths']} cut={tot['paths_cut']} queries={tot['queries']} solver_s={tot['solver_s']:.1f} "
